@@ -83,7 +83,7 @@ let tri_of = function "lower" -> Some (false, false) | "unit_lower" -> Some (fal
   | "upper" -> Some (true, false) | "unit_upper" -> Some (true, true) | _ -> None
 let bs = nat_of_int 32
 let lubs = nat_of_int 4
-let potrf_b upper o nn t = potrf_blocked f bs bs upper o nn t
+let potrf_b upper o nn t = potrf_blocked2 f bs bs upper o nn t
 let pstr n (p : pvec) = String.concat " " (List.map (fun k -> string_of_int (int_of_nat k)) (tabp (nat_of_int n) p))
 
 (* print a result given as list of columns (n x m) row by row *)
@@ -165,7 +165,7 @@ let handle_g (t : 'a inst) cmd g =
   | "U", [[ao; ns; alpha; beta]; al; vl] ->
     (* cholesky_decomposition d(A); d.update(alpha, beta, v); d.lower_factor() *)
     let n = int_of_string ns in let nn = nat_of_int n in
-    (match potrf_blocked t.o bs bs false (orient_of ao) nn (gfmat t (gmat_of t n n al)) with
+    (match potrf_blocked2 t.o bs bs false (orient_of ao) nn (gfmat t (gmat_of t n n al)) with
      | BOk l ->
        (match chol_update t.o nn (t.parse alpha) (t.parse beta) l (gfvec t (Array.of_list (List.map t.parse vl))) with
         | UOk (l2, _) -> Some ("U OK " ^ gmstr t n n l2)
